@@ -38,25 +38,53 @@ def cfg(name, tiers, c, stake, chains, **kw):
 
 
 # what each configuration is about
-C_CALL = consts(O2, kinds=["call"], sets=2, call=1, removable=["o2"])            # outgoing bridge call past the window
-C_BATCH = consts(O2, kinds=["batch"], sets=2, batch=1, removable=["o2"])         # batch past the window
-C_PRUNE = consts(O2, sets=3, obs=[1, 2, 3])                                      # oracle sets: slashing, refresh, pruning
-C_GOV = consts(O1, sets=1, propkind=GOVKINDS, props=2)                           # gov end-blocker paths
+C_CALL = consts(O2, kinds=["call"], sets=2, call=1, removable=["o2"], ticks=(1, 3))   # outgoing bridge call past the window
+C_BATCH = consts(O2, kinds=["batch"], sets=2, batch=1, removable=["o2"])               # batch past the window
+C_PRUNE = consts(O2, sets=3, obs=[1, 2, 3], removable=["o2"])                          # oracle sets: slashing, refresh, pruning
+C_GOV = consts(O1, sets=1, propkind=GOVKINDS, props=2)                                 # gov end-blocker paths
 C_DEV = consts(O2, kinds=["call"], sets=1, call=1)
+# thorough only
+C_BOTH = consts(O2, kinds=["batch", "call"], sets=2, batch=1, call=1, removable=["o2"])   # all three object kinds together
+C_THREE = consts(O3, kinds=["call"], sets=2, call=1)                                      # three oracles 5/4/1
+C_CALL2 = consts(O2, kinds=["call"], sets=2, call=2, removable=["o2"])                    # two bridge calls (cursor restarts AT the last nonce)
+C_BATCH2 = consts(O2, kinds=["batch"], sets=2, batch=2, removable=["o2"])                 # two batches (block-height cursor)
+C_W3 = consts(O2, w=3, kinds=["call"], sets=2, call=1, removable=["o2"], ticks=(1, 2))    # SignedWindow 3
+C_GOV3 = consts(O1, sets=1, propkind=GOVKINDS, props=3)
 
+Q, T, QT = ["quick"], ["thorough"], ["quick", "thorough"]
 ENDBLOCK_MC = [
-    dict(name="mcdev", tiers=["dev"], consts=C_GOV, overrides={"Stake": "Stake2"}),
-    dict(name="mccall", tiers=["quick", "thorough"], consts=C_CALL, overrides={"Stake": "Stake2"}),
-    dict(name="mcbatch", tiers=["quick", "thorough"], consts=C_BATCH, overrides={"Stake": "Stake2"}),
-    dict(name="mcprune", tiers=["quick", "thorough"], consts=C_PRUNE, overrides={"Stake": "Stake2"}),
-    dict(name="mcgov", tiers=["quick", "thorough"], consts=C_GOV, overrides={"Stake": "Stake2"}),
+    dict(name="mcdev", tiers=["dev"], consts=C_DEV, overrides={"Stake": "Stake2"}),
+    dict(name="mccall", tiers=QT, consts=C_CALL, overrides={"Stake": "Stake2"}),
+    dict(name="mcbatch", tiers=QT, consts=C_BATCH, overrides={"Stake": "Stake2"}),
+    dict(name="mcprune", tiers=QT, consts=C_PRUNE, overrides={"Stake": "Stake2"}),
+    dict(name="mcgov", tiers=QT, consts=C_GOV, overrides={"Stake": "Stake2"}),
+    dict(name="mcboth", tiers=T, consts=C_BOTH, overrides={"Stake": "Stake2"}),
+    dict(name="mcthree", tiers=T, consts=C_THREE, overrides={"Stake": "Stake3"}),
+    dict(name="mccall2", tiers=T, consts=C_CALL2, overrides={"Stake": "Stake2"}),
+    dict(name="mcbatch2", tiers=T, consts=C_BATCH2, overrides={"Stake": "Stake2"}),
+    dict(name="mcw3", tiers=T, consts=C_W3, overrides={"Stake": "Stake2"}),
+    dict(name="mcgov3", tiers=T, consts=C_GOV3, overrides={"Stake": "Stake2"}),
 ]
+ALL3 = ["eth", "tron", "bsc"]
 ENDBLOCK_GEN = [
-    cfg("gendev", ["dev"], C_GOV, "Stake2", ["eth"], shards=8),
-    cfg("gencall", ["quick"], C_CALL, "Stake2", ["eth"], rej_sample=3),
-    cfg("genbatch", ["quick"], C_BATCH, "Stake2", ["eth"], rej_sample=3),
-    cfg("genprune", ["quick"], C_PRUNE, "Stake2", ["eth"], rej_sample=3),
-    cfg("gengov", ["quick"], C_GOV, "Stake2", ["eth"], rej_sample=3),
+    cfg("gendev", ["dev"], C_DEV, "Stake2", ["eth"], shards=8),
+    # quick: eth, rejected operations sampled
+    cfg("gencall", Q, C_CALL, "Stake2", ["eth"], rej_sample=3),
+    cfg("genbatch", Q, C_BATCH, "Stake2", ["eth"], rej_sample=3),
+    cfg("genprune", Q, C_PRUNE, "Stake2", ["eth"], rej_sample=3),
+    cfg("gengov", Q, C_GOV, "Stake2", ["eth"], rej_sample=3),
+    # thorough: the same graphs with every rejected operation, on three chain modules (tron: own address format,
+    # signature prefix and checkpoint encoders), plus the larger configurations
+    cfg("gencallT", T, C_CALL, "Stake2", ALL3),
+    cfg("genbatchT", T, C_BATCH, "Stake2", ALL3),
+    cfg("genpruneT", T, C_PRUNE, "Stake2", ALL3),
+    cfg("gengovT", T, C_GOV, "Stake2", ["eth"]),
+    cfg("genboth", T, C_BOTH, "Stake2", ["eth"], rej_sample=2),
+    cfg("genthree", T, C_THREE, "Stake3", ["tron"], rej_sample=2),
+    cfg("gencall2", T, C_CALL2, "Stake2", ["bsc"], rej_sample=2),
+    cfg("genbatch2", T, C_BATCH2, "Stake2", ["tron"], rej_sample=2),
+    cfg("genw3", T, C_W3, "Stake2", ["eth"]),
+    cfg("gengov3", T, C_GOV3, "Stake2", ["eth"], rej_sample=2),
 ]
 
 ASSUMPTIONS = [
@@ -68,11 +96,66 @@ ASSUMPTIONS = [
 ]
 
 
+BLOCK_PATHS = {"dev": 6, "quick": 6, "thorough": 8}      # paths per process
+BLOCK_PROCS = {"dev": 1, "quick": 2, "thorough": 4}      # processes per (configuration, chain)
+
+
+def blocks_recorder(work, binary):
+    """Linear replay through REAL blocks: sampled paths of every generated graph of this tier are executed with
+    FinalizeBlock+Commit (TestBlocks) and, on a branch, with the block-boundary emulation graph replay uses; the two
+    must agree (else exit 2); the real-block behaviours are handed to TLC together with the graph-replay traces."""
+    traces, summary = [], dict(paths=0, steps=0, blocks=0, block_failures=0, model_mismatches=0, emulation_mismatches=0, runs=[])
+    procs = []
+    nproc = BLOCK_PROCS.get(work.tier, 1)
+    for c in [c for c in ENDBLOCK_GEN if work.tier in c["tiers"]]:
+        graph = work.path("gen-%s.out.graph" % c["name"])
+        if not os.path.exists(graph):
+            raise Infra("compiled graph of %s not found (%s)" % (c["name"], graph))
+        for h in c["harness"]:
+            summary["runs"].append("%s/%s" % (c["name"], h["chain"]))
+            for i in range(nproc):
+                tag = "blocks-%s-%s-%d" % (c["name"], h["chain"], i)
+                env = dict(VERIF_EDGES=graph, VERIF_CONST=json.dumps(h), VERIF_SHARD=i, VERIF_SHARDS=nproc,
+                           VERIF_PATHS=BLOCK_PATHS.get(work.tier, 6), VERIF_PATHLEN=c.get("pathlen", 18),
+                           VERIF_TRACES=work.path(tag + ".ndjson"), VERIF_STATS=work.path(tag + ".json"))
+                held = vlib.acquire_slots(1)      # blocks until a slot is free; running processes free theirs on exit
+                procs.append((tag, c, h, vlib.run_harness(work, binary, "TestBlocks", env, work.path(tag + ".log")), held))
+                # release the slots of finished processes early
+                for q in procs:
+                    if q[4] is not None and q[3].poll() is not None:
+                        vlib.release_slots(q[4])
+                        procs[procs.index(q)] = q[:4] + (None,)
+    for tag, c, h, p, held in procs:
+        rc = p.wait()
+        vlib.release_slots(held)
+        logtxt = open(work.path(tag + ".log"), errors="replace").read()
+        if not os.path.exists(work.path(tag + ".json")):
+            raise Infra("real-block replay %s failed (rc=%s):\n%s" % (tag, rc, logtxt[-3000:]))
+        st = json.load(open(work.path(tag + ".json")))
+        if st["emulation_mismatches"]:
+            raise Infra("branch emulation of block boundaries disagrees with real FinalizeBlock+Commit (%s):\n%s"
+                        % (tag, st["first_emulation_mismatch"][:3000]))
+        if rc != 0:
+            raise Infra("real-block replay %s failed (rc=%s):\n%s" % (tag, rc, logtxt[-3000:]))
+        for k in ("paths", "steps", "blocks", "block_failures", "model_mismatches", "emulation_mismatches"):
+            summary[k] += st[k]
+        if st["first_block_failure"] and "first_block_failure" not in summary:
+            summary["first_block_failure"] = st["first_block_failure"][:600]
+        if st["first_model_mismatch"] and "first_model_mismatch" not in summary:
+            summary["first_model_mismatch"] = st["first_model_mismatch"][:1500]
+        traces.append((work.path(tag + ".ndjson"), None, c, h))
+    log("real blocks: %(paths)d paths, %(steps)d steps, %(blocks)d FinalizeBlock+Commit, %(block_failures)d failed blocks, "
+        "%(model_mismatches)d steps differ from the specification, %(emulation_mismatches)d from the branch emulation" % summary)
+    if summary.get("first_block_failure"):
+        log("  first failed block:", summary["first_block_failure"])
+    return dict(traces=traces, summary=summary)
+
+
 def run(work, args):
     return graph_property(
         work, args, pid="C07", module="EndBlock", mcmodule="EndBlockMC", pkg="endblock", formulas=ENDBLOCK_FORMULAS,
         mc_cfgs=ENDBLOCK_MC, gen_cfgs=ENDBLOCK_GEN, reset_op=ENDBLOCK_RESET, level_note="", design_ref="5/C07",
-        assumptions=ASSUMPTIONS)
+        assumptions=ASSUMPTIONS, recorder=dict(tiers=["dev", "quick", "thorough"], run=blocks_recorder))
 
 
 specs.REGISTRY["C07"] = run
